@@ -14,7 +14,7 @@ from tools.vlib import Outcome, sx
 from tools.props import c08_common as C
 
 MANIFEST = {
-    "level_text": "Coq theorems (Properties/C14.v, no axioms) about the run/cache state machine of Model/C08Run.v instantiated with the fingerprint of generation_cache.rs: the fingerprint of the patched code (commands sorted by (file, name), type mappings through a BTreeMap) is the same under every valid discovery order (C14_fp_order_independent, by isort_perm_invariant), so for all states and all pairs of valid orders a non-forced run after a successful or up-to-date run answers up to date and changes nothing - no order class is left, the former two-file and two-mapping witnesses are proved no-ops; a non-forced run over a record equal to the current fingerprint is a no-op whatever flags, files or -o spellings produced the inputs; remaining class kf_C14_path (the spelling of the project path enters file_path, which is hashed), refuted by a computed witness; with --force or force:true every run with commands rewrites every file of the plan and the record from every cache state, and the flag can only switch forcing on; the iteration order of the type_mappings map reaches nothing - two schedules that agree on the file order give the same fingerprint, write plan and unhashed component, the same result and state of every run and of every history (C14_map_order_irrelevant, C14_run_map_order_irrelevant, C14_history_map_order_irrelevant, for every presence flag, fault and state). Tied to /repo by re-running 1..6-file projects in fresh processes on both entry points with the observed discovery orders fed to the extracted model, by forced runs from the cache states absent/matching/mismatching/corrupt/other version, and by sequences of runs that spell the same effective settings differently (--force, --verbose, -v, --visualize-deps versus the file, typegen.json versus tauri.conf.json, relative/bare/absolute -p and -o).",
+    "level_text": "Coq theorems (Properties/C14.v, no axioms) about the run/cache state machine of Model/C08Run.v instantiated with the fingerprint of generation_cache.rs: the fingerprint of the patched code (commands sorted by (file, name), type mappings through a BTreeMap) is the same under every valid discovery order (C14_fp_order_independent, by isort_perm_invariant), so for all states and all pairs of valid orders a non-forced run after a successful or up-to-date run answers up to date and changes nothing - no order class is left, the former two-file and two-mapping witnesses are proved no-ops; a non-forced run over a record equal to the current fingerprint is a no-op whatever flags, files or -o spellings produced the inputs; remaining class kf_C14_path (the spelling of the project path enters file_path, which is hashed), refuted by a computed witness; with --force or force:true every run with commands rewrites every file of the plan and the record from every cache state, and the flag can only switch forcing on; the iteration order of the type_mappings map reaches nothing - two schedules that agree on the file order give the same fingerprint, write plan and unhashed component, the same result and state of every run and of every history (C14_map_order_irrelevant, C14_run_map_order_irrelevant, C14_history_map_order_irrelevant, for every presence flag, fault and state); the per-file command order premise of C14_fp_order_independent is derived from the structure of the project (pairwise distinct relative file paths, every command carrying its file's path: C14_per_file_order_from_structure, C14_fp_order_independent_structural). Tied to /repo by re-running 1..6-file projects in fresh processes on both entry points with the observed discovery orders fed to the extracted model, by forced runs from the cache states absent/matching/mismatching/corrupt/other version, and by sequences of runs that spell the same effective settings differently (--force, --verbose, -v, --visualize-deps versus the file, typegen.json versus tauri.conf.json, relative/bare/absolute -p and -o).",
     "design_ref": "DESIGN.md section 5 C08, C14, C17; section 11 idempotent, isort_perm_invariant",
     "level_note": "Hash orders are sampled by fresh processes, not enumerated; on the build-script path the order of a run that answers up to date is not observable and is taken to be the order of the record it matched, type_mappings (1 and 3 entries in the rerun stream, 2, 4 and 6 entries with at least 5 re-runs in fresh processes in the added rerun cases) are exercised on both entry points - on the build-script path the map order of a run is not observable and the identity order is fed to the model, which C14_run_map_order_irrelevant proves immaterial; file contents are views as in C08; mtime granularity is the file system's (ns).",
     "technique": "Rocq/Coq proof over hand-written model + correspondence check (extracted OCaml vs real binary and Rust driver)"
